@@ -15,10 +15,12 @@
 package derive
 
 import (
+	"bytes"
 	"fmt"
 	"go/ast"
 	"go/format"
 	"go/types"
+	"io/ioutil"
 	"log"
 	"os"
 	"path/filepath"
@@ -274,6 +276,9 @@ func (pg *program) Generate() error {
 	return nil
 }
 
+// maxPasses is the maximum number of times a package is generated again because the generated file has changed.
+const maxPasses = 10
+
 func (pg *program) generatePackage(pkgInfo *loader.PackageInfo) error {
 	path := pkgInfo.Pkg.Path()
 	// ss := make([]string, len(pkgInfo.Files))
@@ -283,6 +288,7 @@ func (pg *program) generatePackage(pkgInfo *loader.PackageInfo) error {
 	// log.Printf("package: %s, files %d: %s", path, len(pkgInfo.Files), strings.Join(ss, ", "))
 	generated := true
 	var undefined string
+	passes := 0
 	thisprogram := pg.program
 	for generated {
 		pkgGen, err := newPackage(thisprogram, pkgInfo, pg.plugins, pg.autoname, pg.dedup)
@@ -305,6 +311,9 @@ func (pg *program) generatePackage(pkgInfo *loader.PackageInfo) error {
 			return err
 		}
 
+		// The types of some calls might have been inferred from the functions in the previously generated file.
+		before, _ := ioutil.ReadFile(pkgGen.Filename())
+
 		if pkgGen.HasContent() {
 			if err := pkgGen.Print(); err != nil {
 				return err
@@ -317,7 +326,20 @@ func (pg *program) generatePackage(pkgInfo *loader.PackageInfo) error {
 		}
 
 		if len(us) == 0 {
-			return nil
+			after, _ := ioutil.ReadFile(pkgGen.Filename())
+			passes++
+			if before == nil || after == nil || bytes.Equal(before, after) || passes >= maxPasses {
+				return nil
+			}
+			// The generated file has changed, so the types that were inferred from the previous file might be out of date:
+			// generate again, until the generated file does not change anymore.
+			undefined = ""
+			thisprogram, err = load(path)
+			if err != nil {
+				return err
+			}
+			pkgInfo = thisprogram.Package(path)
+			continue
 		}
 
 		newundefined := strings.Join(us, ";")
